@@ -44,10 +44,11 @@ def move_file(fs,  # type: Fs
               src, # type: str
               dest, # type: str
               ):
-    # Using nornpath allow to delete symlink to a dir even if the are
-    # specified with traling slash
+    # Removing the trailing slashes allows to delete a symlink to a dir even
+    # if it is specified with trailing slashes (normpath is not used because
+    # it collapses 'link/../x' lexically and names a different entry)
     if os.path.ismount(src.rstrip(os.path.sep) or src):
         # rename(2) of a mount point fails and shutil.move would then copy the
         # whole volume into the trash and delete the originals
         raise OSError(errno.EBUSY, "cannot trash a mount point", src)
-    fs.move(os.path.normpath(src), dest)
+    fs.move(src.rstrip(os.path.sep) or src, dest)
